@@ -139,6 +139,9 @@ func checkC11(c *Ctx) {
 		}
 	}
 
+	// lookups read the nodes of THIS history: a re-used node key must not keep serving a cached node of an erased future
+	checkCacheRefresh(c)
+
 	// PASS rebalance
 	calc := l.Func("", "*Node.calcHeightAndSize")
 	bal := l.Func("", "*MutableTree.balance")
